@@ -206,3 +206,21 @@ add("C08", "model_checking",
     "real runs compared by TLC), not model checking. An unterminated last line may be dropped (as the code does) or taken once. Chunks "
     "are exact: each is written only after FIONREAD on the pipe reports 0.",
     "DESIGN.md 6 (C08), 13.1, 10")
+
+add("C10", "model_checking",
+    "TLA+ resource ledger (BookLedger.tla: request nodes, per-module client records, timer objects, pending timers, statistics counters, "
+    "updated call by call as iauth_core.c / set.c / iauth_xquery.c allocate and release them) composed with IAuth.tla x IAuthContract.tla "
+    "and model-checked exhaustively (MCBook.tla); abstract many-id bookkeeping spec (BookLong.tla) exhaustive for small bounds and used "
+    "with TLC -simulate to generate long and timed histories; conformance on the ASan+LSan daemon judged by TLC (BookTrace.tla)",
+    "TLC checks on every state: ledger = live requests exactly, module data and timers exactly for live requests, every pending timer "
+    "owned by a request in the table, reported in-use = |table| = |contract's live clients| (P10_count), with re-announcement of live ids, "
+    "D/T at every stage, replies and timeouts in every order (39 493 + 5 401 + 617 states quick; thorough adds 3-4 instances and three "
+    "services; BookLong exhaustive for 1-3 ids). Real daemon: (i) ~7e3 sampled per-transition behaviours with a barrier after every line, "
+    "every process ended by end of input (every second one with requests still pending): in-use judged on every step, exit 0 and no "
+    "ASan/LeakSanitizer report at EOF; (ii) TLC-simulated long histories (up to 2 500 steps quick / tens of thousands thorough over 16 ids, "
+    "duplicate announcements, stale replies); (iii) real timers (`timeout 1`, no hook): 64 timed histories on a wall-clock tick schedule "
+    "with requests finished / replaced before their deadline and requests whose timer fires while pending, the clock run past every "
+    "deadline ever set: nothing may be printed for a finished request, pending complete clients must be accepted by the timer.",
+    "Exhaustive for the stated bounds; long histories are simulations. Real-timer runs use generous margins; a schedule miss is retried "
+    "and, if it persists, counted as inconclusive rather than judged. Leaks are what LeakSanitizer reports at exit. `-1` is not a client id.",
+    "DESIGN.md 6 (C10), 13.2")
